@@ -27,7 +27,7 @@ from vlib.core import enc_bool, enc_list, ToolFailure
 TOL_RUN = 1e-9        # model (Float, from the captured solver output) vs implementation: |x-y| <= TOL_RUN*(1+|x|)
 TOL_SPEC = 1e-9       # residual equations / closed forms evaluated on the public outputs (scaled inside the spec)
 TOL_CONTRACT = 1e-9   # residual equations of the captured solver output
-COND_MIN = 1e-6       # predict-reproduces-embedding is compared only if sigma_min > COND_MIN * sigma_max and every
+COND_MIN = 1e-3       # predict-reproduces-embedding is compared only if sigma_min > COND_MIN * sigma_max and every
 #                       un-normalised embedding row has norm > COND_MIN (the hypothesis sigma != 0 of the theorem)
 TOL_PREDICT = 1e-7    # predict(row i) vs embedding_row_[i] under that conditioning guard
 
@@ -586,9 +586,12 @@ def predict_cases(ctx, kind, est, a, dense, reg, fr, fc, fs, normalized, rows, g
             ctx.count('ill-conditioned-skipped')
         if not np.all(np.isfinite(p)):
             run = None
+        if kind == 'PCA' and not ok_rows:
+            run = None      # (x - mean).V cancels to ~0 when sigma ~ 0: the quotient by sigma is rounding noise
         if run is None and spec is None:
             continue
-        cases.append(Case(key, dict(sigp, check='predict-reproduces-embedding'), run, impl, spec, k_out >= 1, pdesc))
+        cases.append(Case(key, dict(sigp, check='predict-reproduces-embedding'), run, impl, spec, k_out >= 1, pdesc,
+                          tol=TOL_PREDICT if kind == 'PCA' else None))
     return cases
 
 
